@@ -18,6 +18,7 @@ func init() {
 		c17FirstResponse(c)
 		c17HeadersOnce(c)
 		c17HeaderMerge(c)
+		headerNamesFoldedInOrder(c, "C17.14")
 		c17CookieDefaults(c)
 		c17CorsTable(c)
 		c17CorsChain(c)
